@@ -1,0 +1,84 @@
+//go:build verif
+
+package service
+
+import "time"
+
+// This file is compiled only with the build tag "verif". It gives an external
+// monitor access to the per-connection stream parser, which is otherwise a local
+// variable of connection.reader, and lets it move the parser's timers (virtual time).
+// It adds no behaviour to the package.
+
+// VerifParser drives packageParse the way connection.reader does: every chunk is
+// copied into one reused 1023-byte buffer before parse() sees it.
+type VerifParser struct {
+	p    *packageParse
+	buf  []byte
+	live []*Message
+}
+
+// VerifMsg is a deep copy of what a *Message carried at the moment it was taken.
+type VerifMsg struct {
+	ID, Serial, Sum, No uint16
+	Phone               string
+	Version             int
+	Body, Raw           []byte
+	Complete            bool
+	HasComplete         bool
+}
+
+func NewVerifParser() *VerifParser {
+	return &VerifParser{p: newPackageParse(), buf: make([]byte, 1023)}
+}
+
+// Feed hands one read of at most 1023 bytes to the parser and returns snapshots of
+// the messages parse() returned for it, in order.
+func (v *VerifParser) Feed(chunk []byte) ([]VerifMsg, error) {
+	n := copy(v.buf, chunk)
+	msgs, err := v.p.parse(v.buf[:n])
+	out := make([]VerifMsg, 0, len(msgs))
+	for _, m := range msgs {
+		v.live = append(v.live, m)
+		out = append(out, verifSnap(m))
+	}
+	return out, err
+}
+
+func verifSnap(m *Message) VerifMsg {
+	h := m.JTMessage.Header
+	return VerifMsg{ID: h.ID, Serial: h.SerialNumber, Sum: h.SubPackageSum, No: h.SubPackageNo,
+		Phone: h.TerminalPhoneNo, Version: int(h.ProtocolVersion),
+		Body: append([]byte{}, m.JTMessage.Body...), Raw: append([]byte{}, m.ExtensionFields.TerminalData...),
+		Complete: m.ExtensionFields.SubcontractComplete, HasComplete: m.hasComplete()}
+}
+
+// LiveCount is the number of messages returned so far; Snap re-reads message i now.
+func (v *VerifParser) LiveCount() int      { return len(v.live) }
+func (v *VerifParser) Snap(i int) VerifMsg { return verifSnap(v.live[i]) }
+func (v *VerifParser) LiveMessage(i int) *Message {
+	return v.live[i]
+}
+
+// Age makes every pending transfer d older (creation and last-update time).
+func (v *VerifParser) Age(d time.Duration) {
+	for _, r := range v.p.timeoutRecord {
+		r.createTime = r.createTime.Add(-d)
+		r.updateTime = r.updateTime.Add(-d)
+	}
+}
+
+// Pending reports, per message ID with an open transfer, which slots are filled.
+func (v *VerifParser) Pending() map[uint16][]bool {
+	out := map[uint16][]bool{}
+	for id, slots := range v.p.subcontractingRecord {
+		b := make([]bool, len(slots))
+		for i, s := range slots {
+			b[i] = len(s) != 0
+		}
+		out[id] = b
+	}
+	return out
+}
+
+// Clear does what the reader's deferred function does when the connection ends.
+func (v *VerifParser) Clear() { clear(v.buf); v.p.clear() }
